@@ -4,12 +4,12 @@ package main
 // the independent specification in spec.go.
 
 import (
-	"os"
 	"fmt"
 	"go/ast"
 	"go/constant"
 	"go/token"
 	"go/types"
+	"os"
 	"regexp/syntax"
 	"sort"
 	"strings"
@@ -46,6 +46,43 @@ func (c *Ctx) mapTable(pkgrel, ts, name string) (*MapV, *types.Var, token.Pos) {
 	return m, v, pos
 }
 
+// printedTable is mapTable for a table whose only reader is a printer method over an enum: when the variable is gone
+// (the printer became a switch, say) the same table is synthesised by folding the printer over the enum's constants.
+// The returned name is the label obligations are keyed by (the variable's name today).
+func (c *Ctx) printedTable(pkgrel, ts, name, printer, enumType string, skip ...string) (*MapV, string, token.Pos) {
+	if c.tableVar(pkgrel, ts, name) != nil {
+		m, v, pos := c.mapTable(pkgrel, ts, name)
+		if v != nil {
+			name = v.Name()
+		}
+		return m, name, pos
+	}
+	pf := c.fn(pkgrel, printer)
+	enum := c.enumConsts(pkgrel, enumType)
+	if pf == nil || len(pf.Params) != 1 || len(enum) == 0 {
+		c.missing(pkgrel + "." + name + " (" + ts + ")")
+		return nil, name, 0
+	}
+	m := &MapV{}
+	for _, n := range sortedKeys(enum) {
+		skipped := false
+		for _, sk := range skip {
+			skipped = skipped || sk == n
+		}
+		if skipped {
+			continue
+		}
+		k := constant.MakeInt64(enum[n])
+		r, err := c.newFolder().foldCall(pf, []fval{{k: k, t: pf.Params[0].Type()}})
+		if err != nil || r.k == nil || r.k.Kind() != constant.String {
+			c.undec(pkgrel+"."+name, c.pos(pf.Pos()), fname(pf), "there is no table variable and the printer does not fold for "+n)
+			return nil, name, pf.Pos()
+		}
+		m.Entries = append(m.Entries, KV{K: &CVal{V: k, T: pf.Params[0].Type(), c: c}, V: &CVal{V: r.k, T: types.Typ[types.String], c: c}, Pos: pf.Pos()})
+	}
+	return m, name, pf.Pos()
+}
+
 // checkInjective: values of a map table are pairwise distinct.
 func (c *Ctx) checkInjective(tab string, m *MapV, pos token.Pos) {
 	seen := map[string]string{}
@@ -64,8 +101,18 @@ func (c *Ctx) checkInjective(tab string, m *MapV, pos token.Pos) {
 }
 
 func ruleTabNote(c *Ctx) {
-	// letter pitches
-	if m, v, _ := c.mapTable("note", "map[note.Name]note.Semitone", "nameSemitoneMap"); m != nil {
+	// letter pitches: decided on the accessor when it folds (a table lookup and a switch are alike), else on the table literal
+	if vals, ok := c.foldEnumAccessor("note", "Name.Semitone", "note", "Name", specLetters); ok {
+		for _, l := range specLetters {
+			c.site(1)
+			n := int64(-99)
+			if vals[l].k != nil && vals[l].k.Kind() == constant.Int {
+				n, _ = constant.Int64Val(vals[l].k)
+			}
+			want := specNatural(l)
+			c.check(int64(want) == n, "note.nameSemitoneMap|"+l, "", "note.Name.Semitone", fmt.Sprintf("%s = %d semitones above C (folded from Name.Semitone)", l, n), fmt.Sprintf("%s is %d semitones above C, the major scale from C puts it at %d", l, n, want))
+		}
+	} else if m, v, _ := c.mapTable("note", "map[note.Name]note.Semitone", "nameSemitoneMap"); m != nil {
 		tab := "note." + v.Name()
 		got := map[string]int64{}
 		for _, e := range m.Entries {
@@ -208,8 +255,8 @@ func ruleTabNote(c *Ctx) {
 		}
 	}
 	// op accidental strings
-	if m, v, pos := c.mapTable("op", "map[op.Accidental]string", "accidentalStringMap"); m != nil {
-		tab := "op." + v.Name()
+	if m, v, pos := c.printedTable("op", "map[op.Accidental]string", "accidentalStringMap", "Accidental.String", "Accidental", "UnknownAccidental"); m != nil {
+		tab := "op." + v
 		want := map[string]string{"Natural": "", "Sharp": "#", "Flat": "b"}
 		for _, e := range m.Entries {
 			s, _ := asStr(e.V)
@@ -1549,4 +1596,30 @@ func (c *Ctx) degreeSizesByFolding() bool {
 	}
 	c.check(len(orderDep) == 0, "note.Degree.Semitone|order", c.pos(fn.Pos()), fname(fn), "the table search gives the same answer whichever way the map is visited", "note.Degree.Semitone depends on map iteration order (two rows qualify): "+strings.Join(orderDep, "; ")+" — the same command gives different bytes on different runs")
 	return true
+}
+
+// foldEnumAccessor folds a one-argument function (or a method on the enum type) on the named constants of an enum type;
+// ok=false when it does not fold to a known value for every one of them.
+func (c *Ctx) foldEnumAccessor(pkg, fn, enumPkg, enumType string, names []string) (map[string]fval, bool) {
+	f := c.fn(pkg, fn)
+	if f == nil || len(f.Params) != 1 {
+		return nil, false
+	}
+	enum := c.enumConsts(enumPkg, enumType)
+	out := map[string]fval{}
+	for _, n := range names {
+		k, has := enum[n]
+		if !has {
+			return nil, false
+		}
+		r, err := c.newFolder().foldCall(f, []fval{{k: constant.MakeInt64(k), t: f.Params[0].Type()}})
+		if err != nil || !r.known() {
+			if os.Getenv("CRDCHECK_DEBUG") != "" {
+				fmt.Fprintf(os.Stderr, "foldEnumAccessor: %s.%s(%s) does not fold: %v %v\n", pkg, fn, n, err, r)
+			}
+			return nil, false
+		}
+		out[n] = r
+	}
+	return out, true
 }
